@@ -18,6 +18,32 @@ pub assume_specification[ u64::rotate_left ](a: u64, n: u32) -> (r: u64);
 #[derive(Clone, Copy)]
 //@ end
 
+/// little-endian value of an 8-byte block (arithmetic definition, independent of the shift/or code)
+pub open spec fn le_word(b: Seq<u8>) -> nat {
+    (b[0] as nat) + (b[1] as nat) * 0x100 + (b[2] as nat) * 0x1_0000 + (b[3] as nat) * 0x100_0000 + (b[4] as nat) * 0x1_0000_0000
+        + (b[5] as nat) * 0x100_0000_0000 + (b[6] as nat) * 0x1_0000_0000_0000 + (b[7] as nat) * 0x100_0000_0000_0000
+}
+pub proof fn lemma_le_word_bits(b0: u8, b1: u8, b2: u8, b3: u8, b4: u8, b5: u8, b6: u8, b7: u8)
+    ensures
+        ((b0 as u64) | ((b1 as u64) << 8) | ((b2 as u64) << 16) | ((b3 as u64) << 24) | ((b4 as u64) << 32) | ((b5 as u64) << 40)
+            | ((b6 as u64) << 48) | ((b7 as u64) << 56)) as nat
+        == (b0 as nat) + (b1 as nat) * 0x100 + (b2 as nat) * 0x1_0000 + (b3 as nat) * 0x100_0000 + (b4 as nat) * 0x1_0000_0000
+            + (b5 as nat) * 0x100_0000_0000 + (b6 as nat) * 0x1_0000_0000_0000 + (b7 as nat) * 0x100_0000_0000_0000
+{
+    assert(((b0 as u64) | ((b1 as u64) << 8) | ((b2 as u64) << 16) | ((b3 as u64) << 24) | ((b4 as u64) << 32) | ((b5 as u64) << 40)
+            | ((b6 as u64) << 48) | ((b7 as u64) << 56))
+        == (b0 as u64) + (b1 as u64) * 0x100 + (b2 as u64) * 0x1_0000 + (b3 as u64) * 0x100_0000 + (b4 as u64) * 0x1_0000_0000
+            + (b5 as u64) * 0x100_0000_0000 + (b6 as u64) * 0x1_0000_0000_0000 + (b7 as u64) * 0x100_0000_0000_0000) by (bit_vector);
+}
+/// distinct 8-byte blocks give distinct words
+pub proof fn lemma_le_word_injective(a: Seq<u8>, b: Seq<u8>)
+    requires a.len() == 8, b.len() == 8, le_word(a) == le_word(b)
+    ensures a =~= b
+{
+    assert(a[0] == b[0] && a[1] == b[1] && a[2] == b[2] && a[3] == b[3] && a[4] == b[4] && a[5] == b[5] && a[6] == b[6] && a[7] == b[7]) by (nonlinear_arith)
+        requires le_word(a) == le_word(b), a.len() == 8, b.len() == 8;
+}
+
 //@ impl crates/stable_type_id/src/lib.rs :: impl StableTypeID
 //@ member from_raw_parts
 //@ ret r
@@ -25,8 +51,19 @@ pub assume_specification[ u64::rotate_left ](a: u64, n: u32) -> (r: u64);
         ensures r.0 == high, r.1 == low
 //@ member sipround
 //@ member read_u64_le
+//@ ret r
 //@ sig
         requires start + 8 <= bytes@.len()
+        // the word is the little-endian value of the 8 bytes: every byte of the block reaches its own 8 bits of the word
+        // (so two blocks that differ in any byte give different words: lemma_le_word_injective)
+        ensures r as nat == le_word(bytes@.subrange(start as int, start + 8))
+//@ head
+        proof {
+            let b = bytes@.subrange(start as int, start + 8);
+            assert(b[0] == bytes@[start as int] && b[1] == bytes@[start + 1] && b[2] == bytes@[start + 2] && b[3] == bytes@[start + 3]
+                && b[4] == bytes@[start + 4] && b[5] == bytes@[start + 5] && b[6] == bytes@[start + 6] && b[7] == bytes@[start + 7]);
+            lemma_le_word_bits(b[0], b[1], b[2], b[3], b[4], b[5], b[6], b[7]);
+        }
 //@ member from_unique_type_name
 //@ sig
         // Rust invariant (trusted): no string is longer than isize::MAX bytes
